@@ -1861,6 +1861,11 @@ func (f *formatter) writeStartMaybeCompact(node ast.Node, forceCompact bool) {
 	}
 	f.Indent(node)
 	f.writeNode(node)
+	if _, ok := node.(ast.CompositeNode); ok {
+		// The trailing comments of a composite node are those of its last
+		// token, which have been written along with that token.
+		return
+	}
 	if info.TrailingComments().Len() > 0 {
 		f.writeInlineComments(info.TrailingComments())
 	}
